@@ -111,13 +111,14 @@ def check_scheme_split(model, rep, rule):
     from sa.miniexec import MiniExec, Returned
     from sa.algebra import Unsupported
     f = model.func('element:TensorReference.getpoints')
-    asg = [s_ for s_ in f.node.body if isinstance(s_, ast.Assign) and 'ischeme1' in src(s_.targets[0])]
-    if len(asg) != 1:
+    # the statements of the function body that bind the two parts (one conditional expression, or an if/else that assigns them)
+    asg = [s_ for s_ in f.node.body if isinstance(s_, (ast.Assign, ast.If)) and any(isinstance(n_, ast.Name) and isinstance(n_.ctx, ast.Store) and n_.id in ('ischeme1', 'ischeme2') for n_ in ast.walk(s_))]
+    if not asg:
         raise AnalysisError('TensorReference.getpoints: the scheme split was not found')
     try:
         ex = MiniExec({'ischeme': 'a*b*c'})
         ex.env['str'] = str
-        ex.run([asg[0]])
+        ex.run(asg)
         got = (ex.env.get('ischeme1'), ex.env.get('ischeme2'))
     except (Unsupported, Exception) as e:
         got = f'not interpretable ({type(e).__name__}: {e})'
